@@ -126,6 +126,14 @@ func controlsFor(verif, prop, tier string) []control {
 	for _, r := range refs {
 		out = append(out, control{r, "silent", "refactor"})
 	}
+	if tier == "thorough" {
+		// additions elsewhere in the tree that leave every property alone: each check must stay silent on them
+		ben, _ := filepath.Glob(filepath.Join(verif, "fixtures", "benign-additions*.diff"))
+		sort.Strings(ben)
+		for _, b := range ben {
+			out = append(out, control{b, "silent", "refactor"})
+		}
+	}
 	return out
 }
 
